@@ -20,8 +20,9 @@ func scalePaths(ps clip.Paths64, k int64) clip.Paths64 {
 }
 
 // C13: results do not depend on coordinate magnitude.
-//   translation: op(x + v) - v describes the same region as op(x)      (|coords| <= 2^52)
-//   scaling:     op(k x) is the k-fold of the true region of x          (|coords| <= 2^61)
+//
+//	translation: op(x + v) - v describes the same region as op(x)      (|coords| <= 2^52)
+//	scaling:     op(k x) is the k-fold of the true region of x          (|coords| <= 2^61)
 func cmdC13(r *RNG, n int, e *Emitter, args []string) {
 	for i := 0; i < n; i++ {
 		takeDiscards()
